@@ -8,7 +8,8 @@ import Driver.Util
 * `letters`   `,`-separated decimal code points: the non-ASCII characters of the document that are
               in `\p{L}` (ASCII letters are built in), `-` = none
 * `badexp`    `,`-separated hex texts of lines that `ExpectationMaker::parse` rejects, `-` = none
-* `doctable`  `,`-separated `key:value`: front-matter text (hex) ↦ `!` (serde_yaml rejects it) or
+* `doctable`  `,`-separated `key:value`: front-matter text (hex; the lines joined by `\n`) ↦ `!`
+              (serde_yaml rejects that text plus a final `\n`, which is what `parse` hands it) or
               an opaque canonical value of the resulting document configuration; key `default`: no
               front-matter; key `a+b`: front-matter `a` followed by a different front-matter `b`
 * `testtable` the same for the text between the braces of a fence line; the key `none` is the
@@ -75,7 +76,11 @@ def opMd (args : List String) : String :=
       let env : Env :=
         { isLetter := fun c => isAsciiLetter c || letters.contains c.toNat
           expOk := fun l => !badexp.contains l
-          docCfgOk := fun t => (docTable.lookup (utf8Hex t)).any (· != "!")
+          -- the model asks about the front-matter text plus the final `\n` that `parse` appends; the
+          -- table is keyed by the text without it
+          docCfgOk := fun t =>
+            let key := if t.getLast? = some '\n' then t.dropLast else t
+            (docTable.lookup (utf8Hex key)).any (· != "!")
           testCfgOk := fun t => (testTable.lookup (utf8Hex t)).any (· != "!") }
       -- a verdict that is needed but not in the table must not default
       let lines := splitLines text
